@@ -574,19 +574,56 @@ func c01(r *core.Report) {
 
 	// ---------------- C01.empty
 	r.RunRule("C01.empty", "the empty-schema shortcut is sound: (a) every Schema field read through the receiver by the visitor family is read by IsEmpty, unless all its reads are nested under a test of a field IsEmpty does read; (b) for `not` and `oneOf` IsEmpty may only test presence (a `not` of anything and a oneOf with >= 2 members constrain the value even when the sub-schemas are empty), it may not recurse into the sub-schema's emptiness", 20, func() {
-		isEmpty := p.DeclOf("openapi3", "Schema.IsEmpty")
+		// the emptiness predicate: IsEmpty and the *Schema methods it delegates to (isEmpty)
+		var emptyDecls []*ast.FuncDecl
+		{
+			seenE := map[*types.Func]bool{}
+			var growE func(f *types.Func)
+			growE = func(f *types.Func) {
+				if f == nil || seenE[f] || !core.InRepo(f.Pkg()) || f.Pkg().Name() != "openapi3" {
+					return
+				}
+				sig := f.Type().(*types.Signature)
+				if sig.Recv() == nil || core.NamedOf(sig.Recv().Type()) != schemaT {
+					return
+				}
+				seenE[f] = true
+				fd := p.Decl(f)
+				emptyDecls = append(emptyDecls, fd)
+				ast.Inspect(fd.Body, func(n ast.Node) bool {
+					if c, ok := n.(*ast.CallExpr); ok {
+						growE(core.CalleeOf(info, c))
+					}
+					return true
+				})
+			}
+			growE(p.FuncObj("openapi3", "Schema.IsEmpty"))
+		}
+		isEmpty := emptyDecls[len(emptyDecls)-1] // the function holding the field tests
+		for _, d := range emptyDecls {
+			n := 0
+			ast.Inspect(d.Body, func(nn ast.Node) bool {
+				if _, ok := nn.(*ast.SelectorExpr); ok {
+					n++
+				}
+				return true
+			})
+			_ = n
+		}
 		emptyReads := map[*types.Var]bool{}
-		recvE := recvObj(info, isEmpty)
-		ast.Inspect(isEmpty.Body, func(n ast.Node) bool {
-			if sel, ok := n.(*ast.SelectorExpr); ok {
-				if f := core.FieldSel(info, sel); f != nil {
-					if id, ok := ast.Unparen(sel.X).(*ast.Ident); ok && info.ObjectOf(id) == recvE {
-						emptyReads[f] = true
+		for _, d := range emptyDecls {
+			recvE := recvObj(info, d)
+			ast.Inspect(d.Body, func(n ast.Node) bool {
+				if sel, ok := n.(*ast.SelectorExpr); ok {
+					if f := core.FieldSel(info, sel); f != nil {
+						if id, ok := ast.Unparen(sel.X).(*ast.Ident); ok && info.ObjectOf(id) == recvE {
+							emptyReads[f] = true
+						}
 					}
 				}
-			}
-			return true
-		})
+				return true
+			})
+		}
 		// visitor family: methods on *Schema reachable from visitJSON through static calls inside openapi3
 		family := map[*types.Func]*ast.FuncDecl{}
 		var grow func(f *types.Func)
@@ -598,7 +635,7 @@ func c01(r *core.Report) {
 			if sig.Recv() == nil || core.NamedOf(sig.Recv().Type()) != schemaT {
 				return
 			}
-			if f.Name() == "IsEmpty" || f.Name() == "MarshalJSON" || f.Name() == "MarshalYAML" {
+			if f.Name() == "IsEmpty" || f.Name() == "isEmpty" || f.Name() == "MarshalJSON" || f.Name() == "MarshalYAML" {
 				return
 			}
 			fd := p.Decl(f)
@@ -692,7 +729,7 @@ func c01(r *core.Report) {
 					if rs.Fields[f] {
 						dep = true
 						for fn := range rs.Funcs {
-							if fn.Name() == "IsEmpty" {
+							if fn.Name() == "IsEmpty" || fn.Name() == "isEmpty" {
 								rec = true
 							}
 						}
